@@ -61,6 +61,7 @@ type Broker struct {
 	Hold func(c *Conn, p Packet) bool
 	Held []HeldPkt
 	OnIn func(c *Conn, p *Packet) // observer of every consumed client packet
+	HandshakeHook func(c *Conn) bool
 }
 
 type HeldPkt struct {
@@ -101,7 +102,7 @@ func (b *Broker) send(c *Conn, p Packet) {
 		b.Held = append(b.Held, HeldPkt{c, p})
 		return
 	}
-	if c.Broken != 0 || c.closedLocal {
+	if c.Broken != 0 || c.closedLocal || c.Hostile != nil || c.Stalled {
 		return
 	}
 	c.Queue(p)
@@ -169,6 +170,11 @@ func (b *Broker) onPacket(c *Conn, st *bconn, p *Packet) {
 				w.Ev("broker", c.id, "CONNECT refused rc=%d", rc)
 				return
 			}
+		}
+		if b.HandshakeHook != nil && b.HandshakeHook(c) {
+			// a hostile reply was queued in place of CONNACK
+			st.closed = true
+			return
 		}
 		if p.ClientID == "" && !p.Clean {
 			// "If the Client supplies a zero-byte ClientId with
